@@ -84,19 +84,22 @@ Verdict(e) ==
   ELSE IF e.hasseq = 1 /\ e.seq.exc # "" THEN R_("Applicable", "sequential:" \o e.seq.exc, e)
   ELSE IF ~(Len(e.mat.R) = e.n /\ Len(e.mat.diag) = e.n /\ Len(e.mat.vert) = e.n
             /\ Len(e.mat.white) = e.n) THEN R_("Shape", "histogram length", e)
-  ELSE IF ~Crafted(e) THEN R_("Crafted", "recurrence_matrix", e)
-  ELSE IF ~IsSym(Rm(e)) /\ ~VertDefNonSym(e) THEN R_("VertDef", "vertline_dist", e)
-  ELSE IF IsSym(Rm(e)) /\ ~VertDef(e) THEN R_("VertDef", "vertline_dist", e)
-  ELSE IF ~DiagDef(e) THEN R_("DiagDef", "diagline_dist", e)
-  ELSE IF ~WhiteDef(e) THEN R_("WhiteDef", "white_vertline_dist", e)
-  ELSE IF ~Conservation(e) THEN R_("Conservation", "line mass", e)
-  ELSE IF ~SeqEqMatrix(e) THEN R_("SeqEqMatrix", "sparse_rqa", e)
-  ELSE IF ~RRDef(e) THEN R_("RRDef", "recurrence_rate", e)
-  ELSE IF ~Scalars(e) THEN R_("Scalars", "rqa measures", e)
-  ELSE IF ~RProbDef(e) THEN R_("Scalars", "recurrence_probability", e)
-  ELSE IF ~StableAfterResampling(e.mat) THEN R_("Stable", "line distributions after resample_*line_dist", e)
-  ELSE IF e.hasseq = 1 /\ ~StableAfterResampling(e.seq) THEN R_("Stable", "line distributions after resample_*line_dist (sequential)", e)
-  ELSE <<"ACCEPT", "", "", Tags(e)>>
+  \* from here on every clause is evaluated and every failing site is named (the recorded finding about diagonal
+  \* lines of non-symmetric matrices does not hide the other clauses of the same case)
+  ELSE LET f == (IF ~Crafted(e) THEN {"Crafted|recurrence_matrix"} ELSE {})
+                \cup (IF ~IsSym(Rm(e)) /\ ~VertDefNonSym(e) THEN {"VertDef|vertline_dist"} ELSE {})
+                \cup (IF IsSym(Rm(e)) /\ ~VertDef(e) THEN {"VertDef|vertline_dist"} ELSE {})
+                \cup (IF ~DiagDef(e) THEN {"DiagDef|diagline_dist"} ELSE {})
+                \cup (IF ~WhiteDef(e) THEN {"WhiteDef|white_vertline_dist"} ELSE {})
+                \cup (IF ~Conservation(e) THEN {"Conservation|line mass"} ELSE {})
+                \cup (IF ~SeqEqMatrix(e) THEN {"SeqEqMatrix|sparse_rqa"} ELSE {})
+                \cup (IF ~RRDef(e) THEN {"RRDef|recurrence_rate"} ELSE {})
+                \cup (IF ~Scalars(e) THEN {"Scalars|rqa measures"} ELSE {})
+                \cup (IF ~RProbDef(e) THEN {"Scalars|recurrence_probability"} ELSE {})
+                \cup (IF ~StableAfterResampling(e.mat) THEN {"Stable|line distributions after resample_*line_dist"} ELSE {})
+                \cup (IF e.hasseq = 1 /\ ~StableAfterResampling(e.seq)
+                      THEN {"Stable|line distributions after resample_*line_dist (sequential)"} ELSE {})
+       IN IF f = {} THEN <<"ACCEPT", "", "", Tags(e)>> ELSE R_("Multi", JoinSet(f), e)
 
 \* all verdicts, evaluated once at constant level (TLC caches LET definitions only there)
 Verdicts == TLCEval([k \in 1..Len(Trace) |-> Verdict(Trace[k])])
